@@ -155,7 +155,32 @@ func ruleFlagUse(c *Ctx) {
 			}
 			okAll := true
 			var badI ssa.Instruction
+			var users []ssa.Instruction
 			for _, r := range *b.Referrers() {
+				// `flush := !sync && mode == MMap; if flush {...}`: the comparison is materialised in a
+				// short-circuit phi whose only other inputs are the constant false
+				if ph, isPhi := r.(*ssa.Phi); isPhi && b.Op == token.EQL {
+					onlyFalse := true
+					for _, e := range ph.Edges {
+						if e == ssa.Value(b) {
+							continue
+						}
+						if bv, isC := constBool(e); !isC || bv {
+							onlyFalse = false
+						}
+					}
+					if onlyFalse {
+						for _, rr := range *ph.Referrers() {
+							if _, isDbg := rr.(*ssa.DebugRef); !isDbg {
+								users = append(users, rr)
+							}
+						}
+						continue
+					}
+				}
+				users = append(users, r)
+			}
+			for _, r := range users {
 				iff, isIf := r.(*ssa.If)
 				if !isIf {
 					okAll = false
